@@ -218,6 +218,24 @@ def parse_time_count_rule(repo: Repo, rep: Report, rid: str) -> None:
     rep.floor(rid, "exempt define / enum sites", seen_exempt, 2)
 
 
+def count_text_rule(repo: Repo, rep: Report, rid: str) -> None:
+    rep.rule(rid, "the text of an array size is interpreted by the expression evaluator only (C literal rules: a leading 0 is octal, suffixes, 0x / 0b): "
+                  "no int(<text>) / literal_eval shortcut in the parsers' size handling")
+    n = 0
+    for fi in repo.module("parser.py").functions.values():
+        mk = [c for c in walk_body(fi.node.body) if isinstance(c, ast.Call) and call_name(c) == "Expression" and len(c.args) == 2]
+        texts = {norm(c.args[1]) for c in mk}
+        if not texts or fi.name in ("_constant", "_constants", "_enum", "_enums"):
+            continue
+        n += 1
+        bad = [c for c in walk_body(fi.node.body) if isinstance(c, ast.Call) and call_name(c) in ("int", "literal_eval", "float", "eval") and c.args
+               and any(norm(x) in texts for x in ast.walk(c.args[0]))]
+        rep.check(not bad, rid, f"{fi.key}:size-text", "only Expression(...) interprets the size text",
+                  f"{fi.qualname} converts the size text with '{short(bad[0], 50) if bad else ''}': Python's int() reads '010' as ten, the expression evaluator (and "
+                  "C) as eight, so x[010] and x[010 + 0] get different lengths", fi.loc(bad[0]) if bad else fi.loc())
+    rep.floor(rid, "size-text sites", n, 1)
+
+
 def array_count_fold_rule(repo: Repo, rep: Report, rid: str) -> None:
     rep.rule(rid, "array length semantics of BaseArray, folded over the count kinds: x[n] asks the element type for exactly n elements (never a "
                   "negative number), x[expr] for max(0, expr), x[] delegates to the null-terminated reader / writer, x[EOF] passes the EOF sentinel, an "
@@ -257,6 +275,8 @@ def run(repo: Repo, rep: Report, tier: str) -> None:
     default_substitution_rule(repo, rep, "C07.R10")
     parse_time_count_rule(repo, rep, "C07.R11")
     array_count_fold_rule(repo, rep, "C07.R12")
+    count_text_rule(repo, rep, "C07.R13")
+
 
 
 
